@@ -46,7 +46,7 @@ VARIABLES g,        \* the contract's ghost
           cnt,      \* state mode: reconciliations started during the current stay in recovering (not saturated)
           st,       \* reported state
           now, seq, \* queue mode: absolute time, arrival counter
-          pend,     \* queue mode: per MAC None or <<[first, last, qt]>>
+          pend,     \* queue mode: per MAC None or <<[first, last, qt, amb]>>
           hand      \* queue mode: per MAC None or <<[first, last]>>
 vars == <<g, steps, flagged, last, H, T, D, cnt, st, now, seq, pend, hand>>
 
@@ -118,7 +118,10 @@ QueueTime == {"NoProcessAfterExpiry", "AtMostOnce", "FifoOrder"}
 
 \* acc = [pend, hand, seq, bad]; absolute time t
 Ahead(pd, m, t) == {x \in Macs : x # m /\ pd[x] # None /\ pd[x][1].qt < pd[m][1].qt /\ t - pd[x][1].first <= Cfg.ttl}
-Behind(pd, m)   == [x \in Macs |-> IF pd[x] # None /\ pd[m] # None /\ pd[x][1].qt <= pd[m][1].qt THEN None ELSE pd[x]]
+\* what is left after m was handed out: everything that arrived before it is gone - unless m's own position is unknown
+Behind(pd, m)   == [x \in Macs |-> IF pd[m] = None THEN pd[x]
+                                   ELSE IF x = m THEN None
+                                   ELSE IF pd[x] # None /\ ~pd[m][1].amb /\ pd[x][1].qt <= pd[m][1].qt THEN None ELSE pd[x]]
 
 DTake(acc, m, t, checkExpiry) ==   \* the queue hands out request m at time t
   [pend |-> Behind(acc.pend, m),
@@ -128,13 +131,13 @@ DTake(acc, m, t, checkExpiry) ==   \* the queue hands out request m at time t
    bad  |-> acc.bad
             \cup (IF acc.pend[m] = None THEN {"AtMostOnce"} ELSE {})
             \cup (IF checkExpiry /\ acc.pend[m] # None /\ t - acc.pend[m][1].last > Cfg.ttl THEN {"NoProcessAfterExpiry"} ELSE {})
-            \cup (IF acc.pend[m] # None /\ t - acc.pend[m][1].first <= Cfg.ttl /\ Ahead(acc.pend, m, t) # {} THEN {"FifoOrder"} ELSE {})]
+            \cup (IF acc.pend[m] # None /\ ~acc.pend[m][1].amb /\ t - acc.pend[m][1].first <= Cfg.ttl /\ Ahead(acc.pend, m, t) # {} THEN {"FifoOrder"} ELSE {})]
 
 DEnd(acc, m, ok, t) ==
   IF ok \/ acc.hand[m] = None \/ acc.pend[m] # None \/ t - acc.hand[m][1].last > Cfg.ttl
     THEN [acc EXCEPT !.hand[m] = None]
     ELSE [acc EXCEPT !.hand[m] = None,
-                     !.pend[m] = <<[first |-> acc.hand[m][1].first, last |-> acc.hand[m][1].last, qt |-> acc.seq]>>,
+                     !.pend[m] = <<[first |-> acc.hand[m][1].first, last |-> acc.hand[m][1].last, qt |-> acc.seq, amb |-> FALSE]>>,
                      !.seq = @ + 1]
 
 RECURSIVE DFold(_, _, _, _)
@@ -146,10 +149,10 @@ DOp(e) ==
   LET a0 == [pend |-> pend, hand |-> hand, seq |-> seq, bad |-> {}] IN
   IF e.op = "enq" /\ e.acc THEN
        IF pend[e.a] # None THEN
-            IF now - pend[e.a][1].first > Cfg.ttl      \* possibly dropped meanwhile: then a new arrival at the back
-              THEN [a0 EXCEPT !.pend[e.a] = <<[@[1] EXCEPT !.last = now, !.qt = seq]>>, !.seq = @ + 1]
+            IF now - pend[e.a][1].first > Cfg.ttl      \* possibly dropped meanwhile: merged, or a new arrival at the back (latest possible position)
+              THEN [a0 EXCEPT !.pend[e.a] = <<[@[1] EXCEPT !.last = now, !.qt = seq, !.amb = TRUE]>>, !.seq = @ + 1]
               ELSE [a0 EXCEPT !.pend[e.a] = <<[@[1] EXCEPT !.last = now]>>]
-       ELSE [a0 EXCEPT !.pend[e.a] = <<[first |-> now, last |-> now, qt |-> seq]>>, !.seq = @ + 1]
+       ELSE [a0 EXCEPT !.pend[e.a] = <<[first |-> now, last |-> now, qt |-> seq, amb |-> FALSE]>>, !.seq = @ + 1]
   ELSE IF e.op = "deq" THEN
        IF e.ret = 0 THEN [a0 EXCEPT !.bad = IF \E x \in Macs : pend[x] # None /\ now - pend[x][1].first <= Cfg.ttl THEN {"FifoOrder"} ELSE {}]
        ELSE DTake(a0, e.ret, now, FALSE)
